@@ -72,6 +72,49 @@ Theorem C03_cstr_format_terminates : forall bytes,
 Proof. exact BoundsProofs.cstr_format_total. Qed.
 Print Assumptions C03_cstr_format_terminates.
 
+(* ---- traversals of the directory parsers, restated from the files of their own properties ---- *)
+From PV.Model Require Dirs Resources VersionInfo Iters.
+From PV.Spec Require Deque DirSpec.
+From PV.Proofs Require DirsProofs ResourcesProofs VersionInfoProofs ItersProofs.
+
+(* exception lookup: the binary search terminates on ANY table (sorted or not) and stays inside the slice *)
+Theorem C03_exception_search_terminates : forall t pc,
+  exists r, Dirs.index_of t pc = Ok r /\
+    match r with
+    | Dirs.Found i => i < lenN t /\ exists f, nth_error t (N.to_nat i) = Some f /\ DirSpec.contains f pc = true
+    | Dirs.Insert k => k <= lenN t
+    end.
+Proof. exact DirsProofs.index_of_total. Qed.
+Print Assumptions C03_exception_search_terminates.
+
+(* POGO records: the iterator terminates on any dword array *)
+Theorem C03_pgo_iter_terminates : forall g image, exists items, Dirs.pgo_iter g image = Ok items /\ DirSpec.pgo_iter_check g image items = true.
+Proof. exact DirsProofs.pgo_iter_correct. Qed.
+Print Assumptions C03_pgo_iter_terminates.
+
+(* resources: fsck terminates on ANY section bytes - cyclic or self-referential directories are reported as errors *)
+Theorem C03_resources_fsck_terminates : forall s, no_fault (Resources.fsck s).
+Proof. exact ResourcesProofs.fsck_no_fault. Qed.
+Print Assumptions C03_resources_fsck_terminates.
+
+(* version info: after an error the TLV parser is exhausted; with ANY visitor the walk completes within fuel |words|+1 per level *)
+Theorem C03_tlv_parser_stops_after_error : forall vl ws e rest, VersionInfoProofs.len_ok ws ->
+  VersionInfo.parser_next vl ws = Some (Err e, rest) -> rest = [] /\ VersionInfo.parser_next vl rest = None.
+Proof. exact VersionInfoProofs.parser_err_stops. Qed.
+Print Assumptions C03_tlv_parser_stops_after_error.
+Theorem C03_version_info_walk_terminates : forall St A (V : VersionInfo.visitor St) (init : St) (proj : St -> A) base bytes,
+  VersionInfoProofs.bytes_len_ok bytes -> no_fault (VersionInfo.api V false init proj base bytes).
+Proof. exact @VersionInfoProofs.api_no_fault. Qed.
+Print Assumptions C03_version_info_walk_terminates.
+
+(* iterators that define only next: any call history terminates within the fuel, and once exhausted they stay exhausted *)
+Theorem C03_forward_iterators_fused : forall (S A : Type) (next : S -> res (option A * S)) (measure : S -> nat) (Inv : S -> Prop),
+  (forall s, Inv s -> next s = Ok (None, s) \/
+                      (exists x s', next s = Ok (Some x, s') /\ Inv s' /\ (measure s' < measure s)%nat)) ->
+  forall s s', Inv s -> next s = Ok (None, s') -> s' = s /\ next s' = Ok (None, s').
+Proof. exact @ItersProofs.fwd_fused. Qed.
+Print Assumptions C03_forward_iterators_fused.
+
 (* non-termination of the code as it stood, repaired in /repo *)
 Theorem C03_F13_iter_orig_refuted : forall fuel,
   iter_blocks_gen advance_orig fuel 0 RelocsProofs.f13_witness = Fault OutOfFuel.
